@@ -28,18 +28,24 @@ LEVEL = "proof"
 CLAIM = dict(
     category="proof",
     text="DarsiaProps.C14 over exact rationals, all inputs. Theorems with content: clip bounds / idempotence; scaling / linear affine, the "
-    "isclose shortcut as an explicit guard |s-1| <= 1e-8+1e-5 with a theorem on either side; CombinedModel = sequential composition; "
+    "isclose shortcut as an explicit guard |s-1| <= 1e-8+1e-5 with a theorem on either side; CombinedModel = sequential composition, stated on "
+    "the executed model callAll, incl. the extra-argument branch of __call__ (callStages: a StaticThresholdModel part gets the mask, "
+    "parameter models no extra argument); "
     "parameter routing for 'all' and every list of (position, dofs) entries as global consecutive slices (routing_all, "
     "routing_subset_slices); the label LOOP over np.unique(labels) with mask assignment as coded - HeterogeneousLinearModel, "
-    "label-wise StaticThresholdModel incl. the mask / return_float tail, the HeterogeneousModel wrapper - proved equal to the "
+    "(over the unique labels of the ORIGINAL map, on the label map in force: a label dropped by a resize does not shift the others; "
+    "hetero_call_after_any_history composes it with the label cache), label-wise StaticThresholdModel incl. the mask / return_float tail, "
+    "the HeterogeneousModel wrapper - proved equal to the "
     "per-label homogeneous model / the clause 'strictly between the bounds inside the mask' (hetero_loop_eq_homog_on_label, "
     "threshold_ops_eq_clause, wrapper_loop_eq_model); the label map in force after any call sequence = nearest-neighbour resize of the "
     "ORIGINAL labels for OpenCV's index rule (exact floor, one below at tabulated double-rounding breakpoints); poly_span for all d; "
     "KernelInterpolation as a state machine: for ALL update sequences cached inverse and weights belong to the current kernel / "
     "supports / values, hence reproduction at the current supports when the current kernel matrix is invertible (abstract kernel, any "
-    "field); the accumulation loop of linear_combination = plain kernel sum for every kernel function and the three signal shapes. "
+    "field); the accumulation loop of linear_combination = plain kernel sum for every kernel function and the three signal shapes "
+    "(guard: one weight per support, at least one support). "
     "Definitional (unfold the pointwise model, kept as clause forms): hetero_eq_homog_on_label, threshold_strict, threshold_hetero, "
-    "wrapper_eq_model_on_label, hetero_result_type; routing_one / routing_subset restate the class dispatch restricted to one slice. "
+    "wrapper_eq_model_on_label, hetero_result_type; routing_one / routing_subset restate the class dispatch restricted to one slice; "
+    "dispatch_matches_code, poly_matches_code, resize_matches_code, cv2_rounding_points_ok are tie checks (generated table vs model). "
     "Tie: exact differential correspondence of the OPERATIONAL models on dyadic inputs for float64, float32, uint8, uint16 and int64 "
     "signals (values and element type of the result), error classes, update sequences; G1 tables (dof dispatch, exponents d <= 8, "
     "cv2 rounding points n,N <= 64, index maps <= 16); LinearKernel numba / plain loop exactly on dyadic float32.",
@@ -954,6 +960,11 @@ def oracle_kernel_sequences(ctx, d):
 # (sorted, de-duplicated) supports, the re-indexed values and WHICH inverse the weights were computed with
 
 
+def rng_choice_known(nrng):
+    """the two calls of the known finding (default dofs / kernel dof): they raise TypeError once data is present"""
+    return "pdef" if nrng.random() < 0.5 else "pker"
+
+
 def gen_kern_ops(nrng, malformed=False):
     pool = gen_supports(nrng, "*", 4)  # principal sub-matrices of a well-conditioned PSD matrix are well conditioned
     k0 = int(nrng.integers(0, 3))
@@ -988,6 +999,8 @@ def gen_kern_ops(nrng, malformed=False):
             ops.append(("ker", int(nrng.integers(0, 3))))
         elif r < 0.9:
             ops.append(("vp", "CURRENT+"))
+        elif malformed and have_s and r < 0.95:
+            ops.append((rng_choice_known(nrng),))
         elif cur_n:
             # supports only: the stored values are re-used, so keep their number (new coordinates, same count)
             ops.append(("upd", None, pool[nrng.permutation(4)[:cur_n].tolist()].tolist(), None, False))
@@ -1018,6 +1031,10 @@ def run_kern_ops(d, nrng, k0, ops):
         elif op[0] == "ker":
             toks.append(f"ker {op[1]}")
             r = call(ki.update_kernel, kernels[op[1]])
+        elif op[0] in ("pdef", "pker"):
+            toks.append(op[0])
+            pv = np.array([0.5] + [0.25] * int(ki.num_supports))
+            r = call(ki.update_model_parameters, pv) if op[0] == "pdef" else call(ki.update_model_parameters, pv, ["kernel"])
         else:
             ps = (nrng.integers(0, 17, int(ki.num_supports) + 2) / 16).tolist()  # longer than needed: only the first num_supports count
             toks.append(f"vp {len(ps)} " + " ".join(fr(x) for x in ps))
@@ -1813,6 +1830,8 @@ def run(ctx):
         "np.clip / numpy broadcasting / boolean mask assignment semantics (tied by the exact correspondence on dyadic inputs)",
         "np.isclose default tolerances 1e-8 + 1e-5 (ScalingModel shortcut); inputs stay away from the threshold",
         "kernel interpolation: exp, np.linalg.inv, float32 casts and numba kernels are observed with tolerances, not modelled",
+        "kernel sums with NO supports are outside the quantifier (1..4 supports): the code then indexes weights[0] / supports[0] out of bounds and returns "
+        "garbage; observed, not checked; kernel_loop_eq_plain_sum carries the guard",
         "states after a raising update are outside C14 (the theorems assume the call sequence does not raise; the correspondence stops at the first "
         "error and compares its class). What the code leaves behind is only recorded: failed_update_observations, update_paths_static",
         "signal shapes (decided from docs and usage): HeterogeneousModel is used on (H,W,3) colour signals with per-label KernelInterpolation "
